@@ -6035,7 +6035,11 @@ size_t ZSTD_initCStream(ZSTD_CStream* zcs, int compressionLevel)
 static size_t ZSTD_nextInputSizeHint(const ZSTD_CCtx* cctx)
 {
     if (cctx->appliedParams.inBufferMode == ZSTD_bm_stable) {
-        return cctx->blockSize - cctx->stableIn_notConsumed;
+        /* note : while the start of a frame is deferred, blockSize is still the one of the previous frame,
+         * and can be smaller than the amount of input already presented */
+        return (cctx->stableIn_notConsumed < cctx->blockSize) ?
+                cctx->blockSize - cctx->stableIn_notConsumed :
+                cctx->blockSize;
     }
     assert(cctx->appliedParams.inBufferMode == ZSTD_bm_buffered);
     {   size_t hintInSize = cctx->inBuffTarget - cctx->inBuffPos;
